@@ -104,10 +104,17 @@ def edge_guards(fn, nid, loop_exits=False):
     return out
 
 
-def _expand(fn, cond, sense, d, out):
+def _expand(fn, cond, sense, d, out, depth=0):
     n = fn.sn(cond)
     if n is None:
         return
+    if n.get('k') == 'var' and n.get('vk', 'local') == 'local' and depth < 4:
+        # `const bool plain = a && b; if (plain)`: a local that only names a condition
+        from .codec import local_inits
+        init = local_inits(fn).get(n.get('d'))
+        if init is not None and fn.sn(init) is not None and fn.sn(init).get('k') in ('binop', 'unop', 'call', 'member', 'var'):
+            _expand(fn, init, sense, d, out, depth + 1)
+            return
     if n.get('k') == 'binop' and ((n['op'] == '&&' and sense) or (n['op'] == '||' and not sense)):
         _expand(fn, n['lhs'], sense, d, out)
         _expand(fn, n['rhs'], sense, d, out)
@@ -790,6 +797,26 @@ def opl_reader_vocab(fb, ns='osmium::io::detail::'):
                             if n.get('recv') is not None:
                                 setters |= entity_accessors(F, n['recv'])
                 cases[chr(v & 0xff)] = OplCase(chr(v & 0xff), F, lab['case'], setters)
+        # the same dispatch written as an if-chain: `if (c == 'v') { ... } else if (c == 'd') ...` on a local character
+        for n in F.all_nodes():
+            if n.get('k') != 'binop' or n.get('op') != '==' or n['id'] not in F.positions():
+                continue
+            for (a, b) in ((n['lhs'], n['rhs']), (n['rhs'], n['lhs'])):
+                va, lb = F.sn(a), F.sn(b)
+                if va is not None and va.get('k') == 'var' and va.get('vk', 'local') == 'local' and lb is not None and lb.get('k') == 'lit' \
+                        and lb.get('char') and 'cv' in lb:
+                    ch = chr(int(lb['cv']) & 0xff)
+                    if not ch.isalpha() or ch in cases:
+                        continue
+                    setters = set()
+                    for m in F.all_nodes():
+                        if m.get('k') == 'call' and m['id'] in F.positions() and is_entity_class(m.get('rcls')):
+                            nm = m['q'].rsplit('::', 1)[-1]
+                            if nm.startswith(('set_', 'add_')) and any(F.strip(g) == n['id'] and sg for (g, sg, _b) in edge_guards(F, m['id'])):
+                                setters.add(nm)
+                                if m.get('recv') is not None:
+                                    setters |= entity_accessors(F, m['recv'])
+                    cases[ch] = OplCase(ch, F, n['id'], setters)
         nested = set()
         for qn in fb.callees_closure(F, depth=4):
             if qn.startswith(ns + 'opl_'):
@@ -818,7 +845,7 @@ def opl_reader_vocab(fb, ns='osmium::io::detail::'):
 PASS_THROUGH = ('osmium::DeltaDecode::update', 'std::vector::at', 'std::vector::operator[]', 'std::move', 'std::forward')
 
 
-def value_sinks(fb, fn, nid, depth=0, seen=None):
+def value_sinks(fb, fn, nid, depth=0, seen=None, ret_to=()):
     """Where does the value computed at node nid end up?  Set of tokens:
          'set_x' / 'add_y#i' / 'convert_z'   entity setter, builder call (argument index), or member function of fn's own class
          'Location#i'                        i-th argument of an osmium::Location constructor
@@ -876,11 +903,23 @@ def value_sinks(fb, fn, nid, depth=0, seen=None):
                 if is_entity_class(p.get('rcls')):
                     out.add(nm if nm.startswith('set_') and len(args) == 1 else '%s/%d#%d' % (nm, len(args), i))
                     return out
+                callee = next((g for g in fb.by_usr.get(p.get('u'), []) if g.has_cfg and i < len(g.params)), None)
                 if p.get('rcls') == fn.cls and fn.cls:
-                    # helper of the decoder itself (convert_pbf_lon): name it and follow its result
+                    # helper of the decoder itself (convert_pbf_lon): name it, look at what it does with the parameter, follow its result
                     out.add(nm)
+                    if callee is not None and depth < 4:
+                        out |= {t for t in _var_uses(fb, callee, callee.params[i]['d'], depth + 1, seen) if t != 'return'}
                     x = p['id']
                     continue
+                if callee is not None and callee.file.startswith(fn.file.rsplit('/include/osmium/', 1)[0] + '/include/osmium/') and depth < 4 \
+                        and not q.startswith('std::'):
+                    # any other library function with a body: where does its parameter go?
+                    sub = _var_uses(fb, callee, callee.params[i]['d'], depth + 1, seen)
+                    out |= {t for t in sub if t != 'return'}
+                    if 'return' in sub:
+                        x = p['id']
+                        continue
+                    return out
                 if p.get('op') == '=' and p.get('recv') is not None:
                     r = fn.root_var(p['recv'])
                     if r is not None and r[0] == 'var':
@@ -903,7 +942,11 @@ def value_sinks(fb, fn, nid, depth=0, seen=None):
                     out |= _var_uses(fb, fn, v['d'], depth, seen)
             return out
         if k == 'return':
-            out.add('return')
+            if ret_to:
+                (cf, cn) = ret_to[-1]
+                out |= value_sinks(fb, cf, cn, depth + 1, seen, ret_to[:-1])
+            else:
+                out.add('return')
             return out
         return out
     return out
